@@ -30,22 +30,12 @@ inductive VTy where
   | sc (k : RKind)
   | sl (k : RKind)
   | anys               -- `[]interface{}` as an array literal builds it: nothing is claimed about the elements
+  | obj (t : OTy)      -- a struct or pointer-to-struct type: its members, as the checker types them
   deriving DecidableEq
-
-def ValOfV (v : Val) : VTy → Prop
-  | .sc k => ValOfK v k
-  | .sl k => ArrOf v k
-  | .anys => ∃ xs, v = .arr .iface xs
 
 def VTy.isSlice : VTy → Bool
   | .sl _ | .anys => true
-  | .sc _ => false
-
-theorem arr_of_sliceV {v : Val} {V : VTy} (hV : V.isSlice = true) (hv : ValOfV v V) : ∃ et xs, v = .arr et xs := by
-  cases V with
-  | sc k => cases hV
-  | sl k => obtain ⟨et, xs, rfl, _, _⟩ := hv; exact ⟨_, _, rfl⟩
-  | anys => obtain ⟨xs, rfl⟩ := hv; exact ⟨_, _, rfl⟩
+  | .sc _ | .obj _ => false
 
 /-- the element kind of a slice-of-scalars type -/
 def sliceElemKind (t : OTy) : Option RKind :=
@@ -65,11 +55,81 @@ def isAnySlice (t : OTy) : Bool :=
     | _ => false
   | none => false
 
+/-- a struct, or a pointer (of any depth) to a struct -/
+def isObjT (t : OTy) : Bool := t.deref.kind == .struct
+
 def vtyOf (t : OTy) : Option VTy :=
   if t.kind.isScalar then some (.sc t.kind)
   else match sliceElemKind t with
     | some k => some (.sl k)
-    | none => if isAnySlice t then some .anys else none
+    | none => if isAnySlice t then some .anys else if isObjT t then some (.obj t) else none
+
+/-- a value conforms to a type, to depth `n`: scalars and slices as before; for a struct (or pointer to
+struct) type, every member the checker resolves on it (`fieldTypeT`, name resolution of the current code)
+can be fetched from the value — with or without `?.` — and conforms to the member's type to depth `n - 1`.
+In particular a pointer member that is typed as a struct is not nil.  Types outside the fragment
+(interfaces, maps, functions) carry no claim. -/
+def Conf : Nat → Val → OTy → Prop
+  | 0, _, _ => True
+  | n + 1, v, t =>
+    match vtyOf t with
+    | some (.sc k) => ValOfK v k
+    | some (.sl k) => ArrOf v k
+    | some .anys => ∃ xs, v = .arr .iface xs
+    | some (.obj _) =>
+      ∀ name τ, fieldTypeT .asIs t name = some τ →
+        ∃ w, (∀ ns, fetchV v (.str name) ns = .ok w) ∧ Conf n w (some τ)
+    | none => True
+
+def ValOfV (v : Val) : VTy → Prop
+  | .sc k => ValOfK v k
+  | .sl k => ArrOf v k
+  | .anys => ∃ xs, v = .arr .iface xs
+  | .obj t => ∀ n, Conf n v t
+
+theorem arr_of_sliceV {v : Val} {V : VTy} (hV : V.isSlice = true) (hv : ValOfV v V) : ∃ et xs, v = .arr et xs := by
+  cases V with
+  | sc k => cases hV
+  | obj t => cases hV
+  | sl k => obtain ⟨et, xs, rfl, _, _⟩ := hv; exact ⟨_, _, rfl⟩
+  | anys => obtain ⟨xs, rfl⟩ := hv; exact ⟨_, _, rfl⟩
+
+theorem vtyOf_obj {t : OTy} {t' : OTy} (h : vtyOf t = some (.obj t')) : t' = t := by
+  unfold vtyOf at h
+  split at h
+  · cases h
+  · split at h
+    · cases h
+    · split at h
+      · cases h
+      · split at h
+        · cases h; rfl
+        · cases h
+
+/-- conformance to every depth gives the value typing of the fragment -/
+theorem conf_valOfV {w : Val} {τ : OTy} {V : VTy} (hV : vtyOf τ = some V) (h : ∀ n, Conf n w τ) : ValOfV w V := by
+  cases V with
+  | obj t' =>
+    have := vtyOf_obj hV
+    subst this
+    exact h
+  | sc k => have := h 1; simp only [Conf, hV] at this; exact this
+  | sl k => have := h 1; simp only [Conf, hV] at this; exact this
+  | anys => have := h 1; simp only [Conf, hV] at this; exact this
+
+theorem valOfV_conf {w : Val} {τ : OTy} {V : VTy} (hV : vtyOf τ = some V) (h : ValOfV w V) : ∀ n, Conf n w τ := by
+  intro n
+  cases n with
+  | zero => trivial
+  | succ n =>
+    cases V with
+    | obj t' =>
+      have := vtyOf_obj hV
+      subst this
+      exact h (n + 1)
+    | sc k => simp only [Conf, hV]; exact h
+    | sl k => simp only [Conf, hV]; exact h
+    | anys => simp only [Conf, hV]; exact h
 
 theorem vtyOf_scalar {t : OTy} (h : ScalarT t) : vtyOf t = some (.sc t.kind) := by
   unfold vtyOf
@@ -82,7 +142,9 @@ theorem vtyOf_sc {t : OTy} {k : RKind} (h : vtyOf t = some (.sc k)) : ScalarT t 
   · rw [if_pos hs] at h; cases h; exact ⟨hs, rfl⟩
   · rw [if_neg hs] at h
     cases hk : sliceElemKind t <;> rw [hk] at h <;> simp only [] at h
-    · split at h <;> cases h
+    · split at h
+      · cases h
+      · split at h <;> cases h
     · cases h
 
 theorem vtyOf_sl {t : OTy} {k : RKind} (h : vtyOf t = some (.sl k)) : sliceElemKind t = some k := by
@@ -91,7 +153,11 @@ theorem vtyOf_sl {t : OTy} {k : RKind} (h : vtyOf t = some (.sl k)) : sliceElemK
   · rw [if_pos hs] at h; cases h
   · rw [if_neg hs] at h
     cases hk : sliceElemKind t with
-    | none => rw [hk] at h; simp only [] at h; split at h <;> cases h
+    | none =>
+      rw [hk] at h; simp only [] at h
+      split at h
+      · cases h
+      · split at h <;> cases h
     | some k' => rw [hk] at h; cases h; rfl
 
 /-- facts about a slice-of-scalars type -/
